@@ -21,7 +21,13 @@
    of the model: a list of events.  Events that make no sense in the current state (worker number out
    of range, Start on a busy worker or with an empty queue, Finish/Crash on an idle worker) are
    no-ops, so EVERY list of events is a schedule.  A schedule that ends before the result is ready
-   models a get() that never returns (Err E_Fuel = nontermination). *)
+   models a get() that never returns (Err E_Fuel = nontermination).
+   The timeout: the clock is part of the pool state (Tick events), get(timeout) is transcribed in pool_get.
+   What a timeout MEANS for a batch is stated further down: every call carries a duration class (it
+   exceeds the timeout or its running time is negligible), dispatch_spec is the sequential specification
+   of the dispatcher (an error when any call exceeds the timeout or raises, otherwise the results in
+   argument order - no worker count in it), and respects_durations / timely say which schedules agree
+   with the duration classes. *)
 From ASV Require Import Base.
 
 (* ---------- the task function ---------- *)
@@ -196,6 +202,121 @@ Definition spec_ok (cfg_cpus cpus : Z) (timeout : option Z) (tasks : list (res Z
              end
   end.
 
+(* ---------- the timeout clause: calls with a duration class ---------- *)
+(* Every call belongs to one of two duration classes, given by `slow : A -> bool`:
+     slow a = true   the call runs longer than the timeout (it "exceeds the timeout"; a call that never
+                     ends, e.g. because its worker dies, is in this class too),
+     slow a = false  its running time is negligible against the timeout.
+   A job of the harness is the pair (duration class, sequential outcome): A = bool * res Z, slow = fst,
+   f = snd.  The class only means something when a timeout is given. *)
+Definition any_exceeds {A} (slow : A -> bool) (timeout : option Z) (args : list A) : bool :=
+  match timeout with None => false | Some _ => existsb slow args end.
+
+(* the sequential specification of the dispatcher, independent of the worker count: an error when any call
+   exceeds the timeout or raises, otherwise the list of results in argument order *)
+Definition dispatch_spec {A B} (f : A -> res B) (slow : A -> bool) (timeout : option Z) (args : list A)
+  : res (list B) :=
+  if any_exceeds slow timeout args then Err E_Runtime else sequential f args.
+
+(* same list, or an error on both sides (which exception surfaces may depend on the schedule) *)
+Definition same_outcome {X} (a b : res X) : Prop :=
+  match a, b with
+  | Ok x, Ok y => x = y
+  | Err _, Err _ => True
+  | _, _ => False
+  end.
+
+(* a chunk reaches a slow call: the calls before it in the chunk return (an exception aborts the chunk) *)
+Fixpoint chunk_slow {A B} (f : A -> res B) (slow : A -> bool) (chunk : list A) : bool :=
+  match chunk with
+  | [] => false
+  | a :: rest => slow a || match f a with Ok _ => chunk_slow f slow rest | Err _ => false end
+  end.
+
+Definition slow_chunk {A B} (f : A -> res B) (slow : A -> bool) (chunks : list (list A)) (c : Z) : bool :=
+  chunk_slow f slow (nth (Z.to_nat c) chunks []).
+
+(* which schedules agree with the duration classes.
+   no_early_finish: a chunk that reaches a slow call does not report before the clock shows the timeout
+     (it was taken at a tick >= 0 and runs longer than the timeout).  Every real run has this property,
+     however loaded the machine is: load only makes things later.
+   no_idle_tick: the clock only advances while a chunk with a slow call is running (taking, running and
+     reporting the other chunks costs no measurable time): the idealisation under which "no call exceeds
+     the timeout" means "the batch is ready in time".
+   Both are checked up to the point where get() returns. *)
+(* get(timeout) has already returned in this state (ready, or timed out): what the schedule says from here
+   on is of no consequence *)
+Definition get_returned {B} (t : Z) (st : pstate B) : bool := (nleft st =? 0) || (t <=? ticks st).
+
+Fixpoint no_early_finish {A B} (f : A -> res B) (slow : A -> bool) (procs : Z) (chunks : list (list A))
+         (t : Z) (sched : list event) (st : pstate B) : bool :=
+  match sched with
+  | [] => true
+  | ev :: s =>
+    if get_returned t st then true else
+    match ev with
+    | Finish w => match lookup_w w (runn st) with
+                  | Some c => if slow_chunk f slow chunks c then t <=? ticks st else true
+                  | None => true
+                  end
+    | _ => true
+    end && no_early_finish f slow procs chunks t s (step f procs chunks ev st)
+  end.
+
+Fixpoint no_idle_tick {A B} (f : A -> res B) (slow : A -> bool) (procs : Z) (chunks : list (list A))
+         (t : Z) (sched : list event) (st : pstate B) : bool :=
+  match sched with
+  | [] => true
+  | ev :: s =>
+    if get_returned t st then true else
+    match ev with
+    | Tick => existsb (fun wc => slow_chunk f slow chunks (snd wc)) (runn st)
+    | _ => true
+    end && no_idle_tick f slow procs chunks t s (step f procs chunks ev st)
+  end.
+
+(* the schedule of the pool that `procs` workers make for the batch, checked from the initial state;
+   without a timeout the clock is never looked at and every schedule qualifies *)
+Definition respects_durations {A B} (f : A -> res B) (slow : A -> bool) (procs : Z) (timeout : option Z)
+           (sched : list event) (args : list A) : bool :=
+  match timeout with
+  | None => true
+  | Some t => no_early_finish f slow procs (make_chunks procs args) t sched (init_state B (make_chunks procs args))
+  end.
+Definition timely {A B} (f : A -> res B) (slow : A -> bool) (procs : Z) (timeout : option Z)
+           (sched : list event) (args : list A) : bool :=
+  match timeout with
+  | None => true
+  | Some t => no_early_finish f slow procs (make_chunks procs args) t sched (init_state B (make_chunks procs args))
+              && no_idle_tick f slow procs (make_chunks procs args) t sched (init_state B (make_chunks procs args))
+  end.
+(* a usable timeout: none, or at least one tick (timeout 0 expires before anything can be ready) *)
+Definition timeout_pos (timeout : option Z) : bool :=
+  match timeout with None => true | Some t => 1 <=? t end.
+
+(* the decidable specification evaluated on every implementation output of parallel_function /
+   parallel_execute at run time.  jobs = (duration class, sequential outcome).  A returned list must be the
+   list of dispatch_spec (so: no job exceeds the timeout); an error must be the timeout error while some job
+   exceeds the timeout, or the exception of one of the raising jobs; an invalid worker count is a ValueError *)
+Definition raises_kind (e : Z) (j : bool * res Z) : bool :=
+  match snd j with Err k => k =? e | Ok _ => false end.
+Definition tspec_ok (cfg_cpus cpus : Z) (timeout : option Z) (jobs : list (bool * res Z)) (out : res (list Z)) : bool :=
+  if effective_cpus cfg_cpus cpus <? 1 then match out with Err e => e =? E_Value | Ok _ => false end
+  else match out with
+       | Ok vs => match dispatch_spec snd fst timeout jobs with
+                  | Ok ws => list_eqb Z.eqb vs ws
+                  | Err _ => false
+                  end
+       | Err e => (any_exceeds fst timeout jobs && (e =? E_Runtime)) || existsb (raises_kind e) jobs
+       end.
+
+(* finding C18-K2: the cpus == 1 shortcut of parallel_function never looks at the timeout, so a batch with a
+   job exceeding it (and no raising job) comes back as a list.  The class of inputs on which the guarded
+   theorems about parallel_function say nothing *)
+Definition finding_K2 (cfg_cpus cpus : Z) (timeout : option Z) (jobs : list (bool * res Z)) : bool :=
+  (effective_cpus cfg_cpus cpus =? 1) && any_exceeds fst timeout jobs &&
+  match sequential snd jobs with Ok _ => true | Err _ => false end.
+
 (* ================================================================================================
    antismash/common/record_processing.py: pre_process_sequences, the caller of parallel_function
    through which secmet Records cross the process boundary (sanitise_sequence, ensure_cds_info).
@@ -355,11 +476,12 @@ Definition pp_spec_ok (gf : prec -> res prec) (o : popts) (recs : list prec) (ou
   end.
 
 (* ---------- encoding ---------- *)
-(* a task travels as its sequential outcome: 0 v (returns v) | 1 kind (raises) *)
-Definition dTask : dec (res Z) := fun l =>
+(* a job travels as its duration class (0 negligible | 1 exceeds the timeout) and its sequential outcome:
+   s 0 v (returns v) | s 1 kind (raises) *)
+Definition dTask : dec (bool * res Z) := fun l =>
   match l with
-  | 0 :: v :: r => Some (Ok v, r)
-  | 1 :: k :: r => Some (Err k, r)
+  | s :: 0 :: v :: r => Some ((negb (s =? 0), Ok v), r)
+  | s :: 1 :: k :: r => Some ((negb (s =? 0), Err k), r)
   | _ => None
   end.
 Definition dEvent : dec event := fun l =>
@@ -427,22 +549,34 @@ Definition dPPCase : dec (Z * popts * list prec * list (Z * res (Z * Z)) * list 
   dPair (dPair (dPair (dPair (dPair dZ dOpts) (dList dRec)) (dList dGf)) (dList dEvent)) (dList dEvent).
 
 (* payload: cfg_cpus cpus timeout(option) tasks(list) schedule(list) *)
-Definition dCase : dec (Z * Z * option Z * list (res Z) * list event) :=
+Definition dCase : dec (Z * Z * option Z * list (bool * res Z) * list event) :=
   dPair (dPair (dPair (dPair dZ dZ) (dOpt dZ)) (dList dTask)) (dList dEvent).
 
 Definition run_C18 (fn : Z) (l : list Z) : list Z :=
   match fn with
   | 1 => match dCase l with
-         | Some ((cfg, cpus, timeout, tasks, sched), []) =>
-           eRes eVals (parallel_function (fun t => t) cfg cpus timeout sched tasks)
+         | Some ((cfg, cpus, timeout, jobs, sched), []) =>
+           eRes eVals (parallel_function snd cfg cpus timeout sched jobs)
          | _ => bad_input end
   | 2 => match dCase l with
-         | Some ((cfg, cpus, timeout, tasks, sched), []) =>
-           eRes eVals (parallel_execute (fun t => t) cfg cpus timeout sched tasks)
+         | Some ((cfg, cpus, timeout, jobs, sched), []) =>
+           eRes eVals (parallel_execute snd cfg cpus timeout sched jobs)
          | _ => bad_input end
-  | 11 | 12 => (* specification on the implementation's output (appended to the payload) *)
+  | 11 => (* specification on the implementation's output (appended to the payload); second number: the
+             finding class the input belongs to (2 = C18-K2, 0 = none) *)
          match dPair dCase dResList l with
-         | Some ((cfg, cpus, timeout, tasks, _, out), []) => eBool (spec_ok cfg cpus timeout tasks out)
+         | Some ((cfg, cpus, timeout, jobs, _, out), []) =>
+           eBool (tspec_ok cfg cpus timeout jobs out) ++ [if finding_K2 cfg cpus timeout jobs then 2 else 0]
+         | _ => bad_input end
+  | 12 => match dPair dCase dResList l with
+         | Some ((cfg, cpus, timeout, jobs, _, out), []) => eBool (tspec_ok cfg cpus timeout jobs out) ++ [0]
+         | _ => bad_input end
+  | 7 => (* does the schedule agree with the duration classes (pool of the effective worker count)?
+            [no Finish of a slow chunk before the timeout; no tick while no slow chunk runs] *)
+         match dCase l with
+         | Some ((cfg, cpus, timeout, jobs, sched), []) =>
+           let procs := effective_cpus cfg cpus in
+           eBool (respects_durations snd fst procs timeout sched jobs) ++ eBool (timely snd fst procs timeout sched jobs)
          | _ => bad_input end
   | 3 => match dPPCase l with
          | Some ((cfg, o, recs, tbl, s1, s2), []) => eRes ePP (pre_process (gf_of_table tbl) o cfg s1 s2 recs)
